@@ -828,11 +828,34 @@ package rueidis
 //@   ensures [C09 a-failed-request-is-not-cached] calls(Set) == 0
 //@   ensures [C09 the-cancelled-flight-is-unregistered where-defined] calls(set) == 1 ==> entries[cmd] == nil
 
+// invalidation (single keys or flush) never unregisters a pending flight and keeps the index object; closing wakes them
+//@ func lru.purge
+//@   modifies *
+//@   ensures [C09 invalidation-keeps-the-index-object] c.store == old(c.store) && c.list == old(c.list)
+//@   assert [C09 invalidation-drops-only-completed-entries] at Remove: e.val.typ != 0 && arg1 == ele
+//@   assert [C09 invalidation-unregisters-only-completed-entries] at delete#1: ele == nil || e.val.typ != 0
+//@ func lru.Delete #c09
+//@   modifies *
+//@   ensures [C09 invalidation-keeps-the-index-that-holds-the-pending-flights] c.store == old(c.store) && c.list == old(c.list)
+//@   loop 0: invariant [C09] c.store == old(c.store) && c.list == old(c.list)
+//@   loop 1: invariant [C09] c.store == old(c.store) && c.list == old(c.list)
+//@ func lru.Close #c09
+//@   modifies *
+//@   assert [C09 closing-wakes-every-pending-flight-with-the-error] at close: e.val.typ == 0 && e.err == err && arg0 == e.ch
+
+// the waiters of an aborted batch member get the error its leader reports: a raw error reply to EXEC is never handed to them
+//@ func pipe.DoMultiCache #c09
+//@   option opaque-pkgs=github.com/redis/rueidis/internal/cmds
+//@   modifies *
+//@   assert [C09 waiters-of-an-aborted-request-get-the-leaders-error] at Cancel#1: (typeis(returned(Error, 1), *RedisError) ==> (arg3 == ErrDoCacheAborted || arg3 == returned(Error, 2))) && (!typeis(returned(Error, 1), *RedisError) ==> arg3 == returned(Error, 1))
+//@   assert [C09 waiters-of-a-failed-static-ttl-request-get-its-transport-error] at Cancel#2: arg3 == resp.s[i].err
+
 //@ func pipe.DoCache #c09
 //@   option opaque-pkgs=github.com/redis/rueidis/internal/cmds
 //@   modifies *
 //@   assert [C09 a-request-is-written-only-after-a-miss] at DoMulti: calls(Flight) == 1 && first(returned(Flight)).typ == 0 && second(returned(Flight)) == nil
 //@   assert [C09 the-flight-that-failed-is-the-one-cancelled] at Cancel: arg1 == ck && arg2 == cc && arg3 != nil
+//@   assert [C09 waiters-of-an-aborted-request-get-the-leaders-error] at Cancel#2: (typeis(second(returned(ToArray)), *RedisError) ==> (arg3 == ErrDoCacheAborted || arg3 == returned(Error))) && (!typeis(second(returned(ToArray)), *RedisError) ==> arg3 == second(returned(ToArray)))
 //@   ensures [C09 a-failed-exec-cancels-its-flight where-defined] second(returned(ToArray)) != nil ==> calls(Cancel) == 1
 
 // ---------------------------------------------------------------------------------------------
